@@ -8,8 +8,8 @@
     executor/scanner.go:181 Reader.Read (variable branch)     exec_var: index-slot scan WITH the limit
                                                                (FStore.query on 24-byte slots), second
                                                                stage, trimResultsToRange, trimResultsToLimit
-    executor/scanner.go:210 trimResultsToRange                trim_range  (incl. the "<= 1 record" and
-                                                               "no record <= end" fall-throughs, F11)
+    executor/scanner.go:210 trimResultsToRange                trim_range  (drop before Start, cut after the
+                                                               last row <= End, nil if none)
     executor/scanner.go:249 trimResultsToLimit                trim_limit
     executor/readvariable.go:12 readSecondStage +             concat of the slots' records; a record is
       rewritebuffer.go RewriteBuffer                           (epoch second, nanoseconds, data) as decoded
@@ -63,14 +63,14 @@ Fixpoint cut_end (e : Z * Z) (l : list vrec) : option (list vrec) :=
       end
   end.
 
-(** [e = None] is planner.MaxTime (every record is before it) *)
+(** [e = None] is planner.MaxTime (every record is before it).  trimResultsToRange as of /repo commit
+    75bdceb: every remaining row is checked against End; nil when no row is <= End. *)
 Definition trim_range (s : Z * Z) (e : option (Z * Z)) (l : list vrec) : list vrec :=
   let d := drop_before s l in
-  if (length d <=? 1)%nat then d
-  else match e with
-       | None => d
-       | Some e' => match cut_end e' d with Some p => p | None => d end
-       end.
+  match e with
+  | None => d
+  | Some e' => match cut_end e' d with Some p => p | None => [] end
+  end.
 
 Definition trim_limit (d : dir) (n : Z) (l : list vrec) : list vrec :=
   if Z.of_nat (length l) >? n then
